@@ -124,6 +124,7 @@ func constsStream(r *runner, rng *rand.Rand) error {
 		return fmt.Errorf("%s", r.sum.Error)
 	}
 	constsCompare(r, f)
+	constsRunWasm(r)
 	if os.Getenv("VERIF_TIER") == "thorough" {
 		constsBuildAll(r, f)
 	}
@@ -443,4 +444,77 @@ func constsBuildAll(r *runner, f *cfFacts) {
 	sort.Strings(skipped)
 	r.sum.Extra["go_vet_skipped_cgo_link_restriction"] = skipped
 	r.sum.Extra["go_build_vet_wall_s"] = time.Since(start).Seconds()
+}
+
+
+// constsRunWasm executes the library on a build target that has no syscall table: the probe
+// (harness/cmd/wasmprobe, built for js/wasm next to this binary) is run by node.  There
+// arch.GetInfo("") and every Policy.Assemble must answer `unsupported arch`, and Supported() is false.
+// Skipped (and tagged) when node, the toolchain's wasm_exec_node.js or the probe are not there.
+func constsRunWasm(r *runner) {
+	self, _ := os.Executable()
+	wasm := filepath.Join(filepath.Dir(self), "wasmprobe.wasm")
+	node, nerr := exec.LookPath("node")
+	goroot, _ := exec.Command("go", "env", "GOROOT").Output()
+	var execJS string
+	for _, c := range []string{"lib/wasm/wasm_exec_node.js", "misc/wasm/wasm_exec_node.js"} {
+		if _, err := os.Stat(filepath.Join(strings.TrimSpace(string(goroot)), c)); err == nil {
+			execJS = filepath.Join(strings.TrimSpace(string(goroot)), c)
+			break
+		}
+	}
+	if _, err := os.Stat(wasm); err != nil || nerr != nil || execJS == "" {
+		r.tag("wasm-run:unavailable")
+		return
+	}
+	cmd := exec.Command(node, execJS, wasm)
+	done := make(chan struct{})
+	var out []byte
+	var rerr error
+	go func() { out, rerr = cmd.CombinedOutput(); close(done) }()
+	select {
+	case <-done:
+	case <-time.After(120 * time.Second):
+		if cmd.Process != nil {
+			cmd.Process.Kill()
+		}
+		<-done
+	}
+	if rerr != nil && len(out) == 0 {
+		r.tag("wasm-run:failed-to-start")
+		return
+	}
+	r.tag("wasm-run:executed")
+	for _, l := range strings.Split(strings.TrimSpace(string(out)), "\n") {
+		f := strings.SplitN(l, " ", 2)
+		if len(f) != 2 {
+			continue
+		}
+		req := "K wasm-run js/wasm " + l
+		switch f[0] {
+		case "target":
+			if f[1] != "js/wasm" {
+				r.mismatch(Mismatch{Case: "wasm-run", Request: req, Go: f[1], Model: "js/wasm", Note: "the probe did not run on js/wasm"})
+				return
+			}
+		case "getinfo":
+			r.count(req, true)
+			if f[1] != `error:"unsupported arch: wasm"` {
+				r.mismatch(Mismatch{Case: "wasm-run:getinfo", Request: req, Go: f[1], Model: `error:"unsupported arch: wasm"`, Key: "consts:wasm-run:getinfo",
+					FailingInput: "on js/wasm (executed by node) arch.GetInfo(\"\") answers " + f[1] + "; the target has no syscall table and must get the unsupported-architecture error"})
+			}
+		case "assemble":
+			r.count(req, true)
+			if !strings.HasSuffix(f[1], `instructions=0 error:"unsupported arch: wasm"`) {
+				r.mismatch(Mismatch{Case: "wasm-run:assemble", Request: req, Go: f[1], Model: `instructions=0 error:"unsupported arch: wasm"`, Key: "consts:wasm-run:assemble",
+					FailingInput: "on js/wasm (executed by node) Policy.Assemble answers `" + f[1] + "`; a target without a syscall table must get the unsupported-architecture error and no program"})
+			}
+		case "supported":
+			r.count(req, true)
+			if f[1] != "false" {
+				r.mismatch(Mismatch{Case: "wasm-run:supported", Request: req, Go: f[1], Model: "false", Key: "consts:wasm-run:supported",
+					FailingInput: "on js/wasm Supported() = " + f[1]})
+			}
+		}
+	}
 }
